@@ -272,6 +272,12 @@ def run_property(tier, seed_value):
         guarded("version", [], {"repo_path": GIT_REPO})
         guarded("flow", [], {"repo_path": GIT_REPO, "source": "git"})
         guarded("version", [], {"repo_path": "/nonexistent"})
+        # path spellings: the wrapper must hand the path to -C as it is (the OS resolves `..` through
+        # symlinks physically; a lexical clean-up names a different directory)
+        for path in PATH_SPELLINGS:
+            guarded("version", [], {"repo_path": path})
+            guarded("flow", [], {"repo_path": path, "source": "git"})
+            label("repo_path-spelling")
         label("keyword:stdin/repo_path")
     except Violation:
         violations.append(dict(FAIL)); COUNTING[0] = True
@@ -380,7 +386,7 @@ def run_property(tier, seed_value):
     return violations
 
 def setup_fixtures():
-    global STDIN_OBJECT, GIT_REPO, HELP, TMP
+    global STDIN_OBJECT, GIT_REPO, HELP, TMP, PATH_SPELLINGS
     HELP = {s: help_options(s) for s in FUNCS}
     # a fixture object that does not depend on any option name of the binary
     STDIN_OBJECT = """(
@@ -395,6 +401,23 @@ def setup_fixtures():
     genv = dict(ENV, GIT_AUTHOR_NAME="t", GIT_AUTHOR_EMAIL="t@e", GIT_COMMITTER_NAME="t", GIT_COMMITTER_EMAIL="t@e", GIT_AUTHOR_DATE="1600000000 +0000", GIT_COMMITTER_DATE="1600000000 +0000")
     for cmd in (["git", "init", "-q", "-b", "main", "."], ["git", "commit", "-q", "--allow-empty", "-m", "c0"], ["git", "tag", "v1.4.0"], ["git", "commit", "-q", "--allow-empty", "-m", "c1"]):
         _real_run(cmd, cwd=GIT_REPO, env=genv, check=True, capture_output=True)
+    # a second repository reached through a symlink: <TMP>/links/out -> <TMP>/releases/app/sub, so
+    # "<TMP>/links/out/.." is physically <TMP>/releases/app (a repository) and lexically <TMP>/links (none);
+    # <TMP>/nested/repo2link -> GIT_REPO/.. style links the other way round
+    repo_b = os.path.join(TMP, "releases", "app")
+    os.makedirs(os.path.join(repo_b, "sub"))
+    for cmd in (["git", "init", "-q", "-b", "main", "."], ["git", "commit", "-q", "--allow-empty", "-m", "b0"], ["git", "tag", "v2.5.0"]):
+        _real_run(cmd, cwd=repo_b, env=genv, check=True, capture_output=True)
+    os.makedirs(os.path.join(TMP, "links"))
+    os.symlink(os.path.join(repo_b, "sub"), os.path.join(TMP, "links", "out"))
+    os.makedirs(os.path.join(TMP, "plain", "dir"))
+    os.symlink(os.path.join(TMP, "plain", "dir"), os.path.join(TMP, "links", "away"))   # links/away/.. is <TMP>/plain: no repository
+    os.symlink(GIT_REPO, os.path.join(TMP, "links", "repo"))
+    PATH_SPELLINGS = [
+        GIT_REPO + "/", GIT_REPO + "/.", GIT_REPO + "//", os.path.join(TMP, ".", "repo"), os.path.join(repo_b, "sub", ".."), os.path.join(repo_b, "sub"),
+        os.path.join(TMP, "links", "out", ".."), os.path.join(TMP, "links", "out"), os.path.join(TMP, "links", "away", ".."), os.path.join(TMP, "links", "repo"),
+        os.path.join(TMP, "links", "repo", "..", "repo"), GIT_REPO.lstrip("/"), "./" + GIT_REPO.lstrip("/"), os.path.join(TMP, "plain"), "",
+    ]
 
 def main():
     args = sys.argv[1:]
